@@ -149,6 +149,70 @@ pub fn merkle_root_traced(list: &[(RH, u64)]) -> (RH, MerkleTrace) {
     (level[0].0, tr)
 }
 
+/// [`merkle_root`] of a list given as runs of identical entries `((hash, length), count)`, in memory proportional to
+/// the number of runs and the tree height: inside a run of identical children every group that starts on an empty
+/// group closes at the same size with the same parent, so whole groups are emitted as a run of parents.  Checked
+/// against `merkle_root` on expanded lists by the labs that use it.
+pub fn merkle_root_runs(runs: &[((RH, u64), u64)]) -> RH {
+    let mut level: Vec<((RH, u64), u64)> = runs.iter().filter(|r| r.1 > 0).cloned().collect();
+    if level.is_empty() {
+        return ZERO;
+    }
+    let node = |group: &[(RH, u64)]| -> (RH, u64) {
+        let mut text = Vec::new();
+        let mut total = 0u64;
+        for (h, l) in group {
+            text.extend_from_slice(hex(h).as_bytes());
+            text.extend_from_slice(format!(" : {l}\n").as_bytes());
+            total += *l;
+        }
+        (*blake3::keyed_hash(&INTERNAL_NODE_KEY, &text).as_bytes(), total)
+    };
+    let push = |next: &mut Vec<((RH, u64), u64)>, v: (RH, u64), c: u64| {
+        if c == 0 {
+            return;
+        }
+        match next.last_mut() {
+            Some(l) if l.0 == v => l.1 += c,
+            _ => next.push((v, c)),
+        }
+    };
+    while level.iter().map(|r| r.1).sum::<u64>() > 1 {
+        let total: u64 = level.iter().map(|r| r.1).sum();
+        let mut next: Vec<((RH, u64), u64)> = Vec::new();
+        let mut group: Vec<(RH, u64)> = Vec::new();
+        let mut idx = 0u64; // children consumed so far
+        for (child, count) in &level {
+            let zero_mod_4 = last_word(&child.0) & 3 == 0;
+            let period = if zero_mod_4 { 3 } else { 9 };
+            let mut left = *count;
+            while left > 0 {
+                if group.is_empty() && left >= period {
+                    // whole groups of identical children; the last child of the level closes its group anyway,
+                    // by size, so the end-of-level rule changes nothing for them
+                    let k = left / period;
+                    let parent = node(&vec![*child; period as usize]);
+                    push(&mut next, parent, k);
+                    left -= k * period;
+                    idx += k * period;
+                    continue;
+                }
+                let earlier = group.len();
+                group.push(*child);
+                left -= 1;
+                idx += 1;
+                if (earlier >= 2 && zero_mod_4) || earlier >= 8 || idx == total {
+                    let parent = node(&group);
+                    push(&mut next, parent, 1);
+                    group.clear();
+                }
+            }
+        }
+        level = next;
+    }
+    level[0].0 .0
+}
+
 /// URL-safe base64 without padding (RFC 4648 section 5), written out by hand.
 pub fn base64url_nopad(bytes: &[u8]) -> String {
     const A: &[u8; 64] = b"ABCDEFGHIJKLMNOPQRSTUVWXYZabcdefghijklmnopqrstuvwxyz0123456789-_";
